@@ -1,5 +1,5 @@
 """C09 — grouped tables partition the ungrouped ones; matrix and linear formats agree; every read gets the documented group."""
-import os, shutil, tempfile, itertools, types, json
+import os, shutil, tempfile, itertools, types, json, random
 from fractions import Fraction
 from lib import *
 from props.c02_common import *
@@ -78,13 +78,14 @@ def groupers(ctx, quick):
         for i in range(150 if quick else 1500):
             d = os.path.join(work, "t%d" % i); os.makedirs(os.path.join(d, "aux"))
             delim, rc, gc = rnd.choice([("\t", 0, 1), ("\t", 0, 1), ("\t", 1, 0), ("\t", 0, 2), (",", 0, 1), (";;", 1, 2)])
-            reads = [rname(rnd) for _ in range(rnd.randint(2, 6))]; reads = list(dict.fromkeys(reads))
+            reads = [("#" if rnd.random() < .25 else "") + rname(rnd) for _ in range(rnd.randint(2, 6))]; reads = list(dict.fromkeys(reads))   # SAM allows read ids that start with '#'
+            if i == 0: delim, rc, gc = "\t", 1, 0; reads = ["#r", "r2"]                                   # corpus: the recorded input of C09:table-read-id-hash
             lines = []
             for r in reads + [rname(rnd) for _ in range(2)]:
                 x = rnd.random()
-                if x < .2: continue                                               # not in the table
+                if x < .2 and i > 0: continue                                     # not in the table
                 cols = ["c%d" % j for j in range(max(rc, gc) + 1 + rnd.randint(0, 1))]
-                cols[rc] = r; cols[gc] = rnd.choice(["g1", "g2", "NA", "zeta", "A B", "10", " pad", "pad ", ""])
+                cols[rc] = r; cols[gc] = rnd.choice(["g1", "g2", "NA", "zeta", "A B", "10", " pad", "pad ", ""]) if i > 0 else "g" + r[-1]
                 line = delim.join(cols)
                 if x < .3: line = "  " + line + " "
                 lines.append(line)
@@ -116,9 +117,11 @@ def groupers(ctx, quick):
             shutil.rmtree(d, ignore_errors=True)
     finally:
         shutil.rmtree(work, ignore_errors=True)
-    pre = PRE_G + "From IQ Require Import GroupedUniverse GroupedTable GroupedUniverseCheck.\nDefinition check := check_table.\nDefinition prop := prop_table_strict.\n"
+    tv = table_variant()
+    ctx.notes.append("table grouper: the checked-out code reads the per-chromosome split files %s (model variant %s)" % (("without comment skipping", "table_group_repaired") if tv else ("WITH comment skipping (before commit 614fc16)", "table_group")))
+    pre = PRE_G + "From IQ Require Import GroupedUniverse GroupedTable GroupedUniverseCheck.\nDefinition check := %s.\nDefinition prop := prop_table_strict.\n" % ("check_table_repaired" if tv else "check_table")
     mism, viol = ctx.corr("grouper_table", pre, cases, shard=200, nontrivial=lambda o: o["impl"] != "NA")
-    ctx.corr_report("grouper_table", mism, viol, keyfn=lambda o: None, what="ReadTableGrouper behind split_read_group_table does not return the table entry / NA")
+    ctx.corr_report("grouper_table", mism, viol, keyfn=lambda o: HASH_KEY if o["read_name"].startswith("#") else None, what="ReadTableGrouper behind split_read_group_table does not return the table entry / NA")
 
     # ---- file name
     cases = []
@@ -147,6 +150,40 @@ PRE_U = """From IQ Require Import GroupedGroupers GroupedCheck GroupedUniverse G
 Open Scope Z_scope.
 """
 RESUME_KEY = "C09:resume-strips-group-names"
+HASH_KEY = "C09:table-read-id-hash"
+
+
+def table_variant():
+    """True = the checked-out code reads the split files without comment skipping (commit 614fc16): probed on the real classes with the recorded input"""
+    import pysam
+    from src import read_groups as RG
+    d = tempfile.mkdtemp(prefix="iqv_c09v_")
+    try:
+        os.makedirs(os.path.join(d, "aux"))
+        hdr = pysam.AlignmentHeader.from_dict({"HD": {"VN": "1.6"}, "SQ": [{"SN": "chrA", "LN": 10000}]})
+        a = pysam.AlignedSegment(hdr); a.query_name = "#r"; a.flag = 0; a.reference_id = 0; a.reference_start = 100; a.cigartuples = [(0, 10)]; a.query_sequence = "ACGTACGTAC"; a.mapping_quality = 60
+        bam = os.path.join(d, "r.bam")
+        with pysam.AlignmentFile(bam, "wb", header=hdr) as out: out.write(a)
+        t = os.path.join(d, "t.tsv"); open(t, "w").write("g1\t#r\n")
+        sample = types.SimpleNamespace(file_list=[[bam]], read_group_file=os.path.join(d, "aux", "S.read_group")); args = types.SimpleNamespace(read_group="file:%s:1:0" % t)
+        RG.prepare_read_groups(args, sample)
+        return RG.create_read_grouper(args, sample, "chrA").get_group_id(a, bam) == "g1"
+    except Exception:
+        return True
+    finally:
+        shutil.rmtree(d, ignore_errors=True)
+
+
+def universe_variant():
+    """True = the checked-out code reads the group file back with only the line terminator removed (commit 40e2502): probed on the real resume branch"""
+    d = tempfile.mkdtemp(prefix="iqv_c09v_")
+    try:
+        res = real_universe(dict(mode="tag:RG", files=["/d/a.bam"], chrs=[[("r1", " g1", 0)]], truth=[[" g1"]], resume=True, rnd=random.Random(0)), d)
+        return " g1" in res["universe"]
+    except Exception:
+        return True
+    finally:
+        shutil.rmtree(d, ignore_errors=True)
 
 
 def real_universe(case, workdir):
@@ -221,7 +258,7 @@ def universe_section(ctx, quick):
     def gen(resume, padded=False):
         mode = rnd.choice(["tag:RG", "tag:RG", "read_id:|", "file_name"])
         files = ["/d/lib%d.bam" % k for k in range(rnd.randint(1, 3))]
-        nchr = rnd.randint(1, 4); pool = rnd.sample(values, rnd.randint(1, 5)) + ([" pad", "pad ", "tab\tin"] if padded else [])
+        nchr = rnd.randint(1, 4); pool = rnd.sample(values, rnd.randint(1, 5)) + (rnd.sample([" pad", "pad ", " both ", "tab\tin", "\tlead"], rnd.randint(1, 3)) if padded else [])
         chrs = []; truth = []
         for ci in range(nchr):
             sub = rnd.sample(pool, rnd.randint(0, len(pool))) if rnd.random() < .8 else []          # groups absent from a chromosome / a chromosome without reads
@@ -242,7 +279,8 @@ def universe_section(ctx, quick):
         finally: shutil.rmtree(d, ignore_errors=True)
     try:
         for i in range(250 if quick else 2500):
-            case = gen(resume=i % 3 == 0)
+            case = gen(resume=i % 3 == 0, padded=i % 2 == 0)
+            if i == 0: case = dict(mode="tag:RG", files=["/d/a.bam"], chrs=[[("r1", " g1", 0), ("r2", "g2 ", 0)]], truth=[[" g1", "g2 "]], resume=True, rnd=rnd)   # corpus: the recorded input of C09:resume-strips-group-names
             rep = {k: case[k] for k in ("mode", "files", "chrs", "resume")}
             try: res = run_case(case)
             except Exception as e:
@@ -251,18 +289,14 @@ def universe_section(ctx, quick):
                                             clist(res["ids"], lambda p: "(%s, %s)" % (cs(p[0]), cz(p[1]))))
             cases.append(("(%s, %s, %s)" % (cbool(case["resume"]), clist(case["truth"], lambda l: clist(l, cs)), obs),
                           dict(rep, groups_of_the_processed_reads=case["truth"], group_files=res["files"], universe=res["universe"], ordered_groups=res["ordered"], group_numeric_ids=res["ids"])))
-        # the recorded defect of the resume path (group names with white space at their ends are stripped when the group file is read back): reproduced once it is listed
-        if any(f["key"] == RESUME_KEY and f["property"] == "C09" for f in known_findings().get("findings", [])):
-            case = dict(mode="tag:RG", files=["/d/a.bam"], chrs=[[("r1", " g1", 0)]], truth=[[" g1"]], resume=True, rnd=rnd)
-            res = run_case(case)
-            if " g1" not in res["universe"]:
-                ctx.violation(RESUME_KEY, "on --resume the per-chromosome group file is read back through str.strip(): the group ' g1' becomes 'g1', the reads still carry ' g1'",
-                              {"mode": "tag:RG", "chrs": case["chrs"], "resume": True, "universe": res["universe"]})
     finally:
         shutil.rmtree(work, ignore_errors=True)
-    pre = PRE_U + "Definition check := check_universe.\nDefinition prop := prop_universe.\n"
+    uv = universe_variant()
+    ctx.notes.append("group universe: on --resume the checked-out code reads the group file back %s (model variant %s)" % (("removing only the line terminator", "universe") if uv else ("through str.strip() (before commit 40e2502)", "universe_unrepaired")))
+    pre = PRE_U + "Definition check := %s.\nDefinition prop := prop_universe.\n" % ("check_universe" if uv else "check_universe_unrepaired")
     mism, viol = ctx.corr("group_universe", pre, cases, shard=60, ctype="ucase", nontrivial=lambda o: len(o["universe"]) > 1)
-    ctx.corr_report("group_universe", mism, viol, keyfn=lambda o: None, what="a group carried by a processed read is missing from the universe the counters are built with (group_numeric_ids would raise KeyError)")
+    padded_lost = lambda o: o["resume"] and any(g != g.strip() and g not in o["universe"] for ans in o["groups_of_the_processed_reads"] for g in ans)
+    ctx.corr_report("group_universe", mism, viol, keyfn=lambda o: RESUME_KEY if padded_lost(o) else None, what="a group carried by a processed read is missing from the universe the counters are built with (group_numeric_ids would raise KeyError)")
     ctx.rule("group universe: the REAL collect_reads_in_parallel per chromosome (collector, save-file printer, Fasta and pysam stubbed; the stub collector asks the real grouper of "
              "create_read_grouper - tag / read_id / file_name - for every generated alignment): 1-4 chromosomes, chromosomes without reads, groups absent from a chromosome, untagged reads (NA), "
              "the empty group, a group that occurs only on the last chromosome; every third case also takes the real --resume branch that reads <raw>_<chr>_groups back; union as collect_reads; "
